@@ -76,8 +76,9 @@ React(x, e, m, s) ==
       i == IF a \in {"DT2", "AR6"} THEN "PD" ELSE IndOf(a)
   IN [ns |-> c[2],
       a |-> a,
-      wire |-> IF w = "-" THEN <<>> ELSE IF w = "AB" THEN <<AbortPdu(a, e, m)>> ELSE <<Msg(w, IF w = "RJ" THEN m.f ELSE <<>>)>>,
-      ind |-> IF i = "-" THEN <<>> ELSE IF i = "AB" THEN <<AbortInd(a, m)>> ELSE <<Msg(i, IF i = "RJ" THEN m.f ELSE <<>>)>>,
+      \* A-ASSOCIATE-RJ carries its triple, P-DATA its payload (a token for the content of the DIMSE message)
+      wire |-> IF w = "-" THEN <<>> ELSE IF w = "AB" THEN <<AbortPdu(a, e, m)>> ELSE <<Msg(w, IF w \in {"RJ", "PD"} THEN m.f ELSE <<>>)>>,
+      ind |-> IF i = "-" THEN <<>> ELSE IF i = "AB" THEN <<AbortInd(a, m)>> ELSE <<Msg(i, IF i \in {"RJ", "PD"} THEN m.f ELSE <<>>)>>,
       closes |-> Closes(a) \/ a \in {"AA4", "AA5", "AR5"}]
 
 (* apply a reaction r of side x; a write to a connection the peer has closed fails: the attempt is recorded,      *)
@@ -159,9 +160,11 @@ RqAssocInd ==      \* request_association returns (body entered) or raises
          [] OTHER -> FALSE
   /\ NetSame /\ UNCHANGED <<uq, acErr, svc, nreq, out, responded, given, acted>>
 
-RqSend ==
-  /\ app["R"] = "body" /\ nreq < MaxReq /\ nreq' = nreq + 1 /\ out' = out + 1 /\ Put("R", Msg("PD", <<>>))
+RqSendD(d) ==      \* d: token for the content of the message (what the peer's application must be handed, unchanged)
+  /\ app["R"] = "body" /\ nreq < MaxReq /\ nreq' = nreq + 1 /\ out' = out + 1 /\ Put("R", Msg("PD", d))
   /\ NetSame /\ UNCHANGED <<app, ind, rqErr, acErr, entered, svc, responded, given, acted>>
+
+RqSend == RqSendD(<<>>)
 
 RqWait ==
   /\ app["R"] = "body" /\ (out > 0 \/ ~Strict) /\ Goto("R", "rsp")
@@ -216,9 +219,11 @@ AcRecv ==          \* the handler loop's receive(): a request invokes a service;
          [] OTHER -> FALSE
   /\ NetSame /\ UNCHANGED <<rqErr, entered, nreq, out, given, acted>>
 
-AcRespond ==
-  /\ app["A"] = "svc" /\ (~responded \/ ~Strict) /\ responded' = TRUE /\ Put("A", Msg("PD", <<>>))
+AcRespondD(d) ==
+  /\ app["A"] = "svc" /\ (~responded \/ ~Strict) /\ responded' = TRUE /\ Put("A", Msg("PD", d))
   /\ NetSame /\ UNCHANGED <<app, ind, rqErr, acErr, entered, svc, nreq, out, given, acted>>
+
+AcRespond == AcRespondD(<<>>)
 
 AcReturn ==
   /\ app["A"] = "svc" /\ (responded \/ ~Strict) /\ Goto("A", "serve")
